@@ -342,6 +342,16 @@ def validate_block_start_spec(chk: Check, n: int) -> None:
     esc = model_batch(["escape_word " + enc_str(w) for w in words], shards=1)
     nb = 0
     nopen = 0
+    # the theorems of this property are about the hand-written escape_word: it must be the implementation's markdown_escape_word
+    from flowmark.linewrapping import text_wrapping as tw
+    nesc = 0
+    for w, e in zip(words, esc):
+        mw, iw = Toks(e).str(), tw.markdown_escape_word(w)
+        if mw != iw:
+            nesc += 1
+            if nesc <= 5:
+                chk.fail("correspondence", {"port": "escape_word", "word": w, "model": mw, "impl": iw}, f"escape_word({w!r}): model {mw!r}, implementation {iw!r}")
+    chk.port_stat("port escape_word (Model/Wrap.v) vs markdown_escape_word", len(words), nesc)
     for w, a, e in zip(words, ans, esc):
         opens = Toks(a).bool()
         ew = Toks(e).str()
